@@ -69,13 +69,18 @@ Fixpoint ord_val (oi : pystr -> pyval -> Prop) (tf : tfield) (v : pyval) : Prop 
   | _ => True
   end.
 
-(* v is an instance of exactly class cn (not of a subclass), hereditarily in declaration order *)
+(* v is an instance of class cn - or of any other safe class of the family, a subclass of cn for instance: the fast
+   serializer, like the regular one, serializes a structure as what it is -, hereditarily in declaration order *)
 Fixpoint ord_inst (e : tenv) (fuel : nat) (cn : pystr) (v : pyval) : Prop :=
   match fuel with
   | O => False
-  | S n => match find_tclass e cn, v with
-           | Some c, PStruct rn a => rn = cn /\ aligned (ord_val (ord_inst e n)) (t_fields c) a
-           | _, _ => False
+  | S n => match v with
+           | PStruct rn a =>
+               match find_tclass e rn with
+               | Some c => (rn = cn \/ safe_class e (S n) rn = true) /\ aligned (ord_val (ord_inst e n)) (t_fields c) a
+               | None => False
+               end
+           | _ => False
            end
   end.
 
@@ -182,42 +187,30 @@ Section Proofs.
       safe_tf tf = true ->
       (forall c x d, In c (refs tf) -> oi c x -> sc c x = Ok d -> fc c x = Ok d) ->
       (forall c x d, In c (refs tf) -> oi c x -> sc0 c x = Ok d -> fc c x = Ok d) ->
-      (forall c, In c (refs tf) -> class_is_fast e c = true) ->
       ord_val oi tf v ->
-      ser_val re_match sser oser sc sc0 tf v = Ok w -> fast_val sser ofast e fc tf v = Ok w.
+      ser_val re_match sser oser sc sc0 tf v = Ok w -> fast_val sser ofast fc tf v = Ok w.
   Proof.
-    induction tf as [l|item IH|item IH|c|nf f IH|ls|id o]; intros sc sc0 v w Hs Hsc Hsc0 Hfast Hord H;
+    induction tf as [l|item IH|item IH|c|nf f IH|ls|id o]; intros sc sc0 v w Hs Hsc Hsc0 Hord H;
       cbn [safe_tf] in Hs; try discriminate; cbn [ser_val] in H; cbn [fast_val refs ord_val] in *.
     - rewrite (fast_leaf_same sser l v (leaf_ok_not_none l Hs)). exact H.
     - destruct v; try discriminate.
       destruct (mapM (ser_val re_match sser oser sc sc0 item) l) as [r|ex] eqn:Hm; cbn [bind] in H; [|discriminate].
-      assert (Hg : mapM (fast_val sser ofast e fc item) l = Ok r).
-      { apply (mapM_ok_impl (ser_val re_match sser oser sc sc0 item) (fast_val sser ofast e fc item) (ord_val oi item) l r);
+      assert (Hg : mapM (fast_val sser ofast fc item) l = Ok r).
+      { apply (mapM_ok_impl (ser_val re_match sser oser sc sc0 item) (fast_val sser ofast fc item) (ord_val oi item) l r);
           [|exact Hord|exact Hm].
-        intros x d Hx Hd. apply (IH sc sc0 x d Hs Hsc Hsc0 Hfast Hx Hd). }
-      assert (Hc : match item with
-                   | TRef c => if class_is_fast e c then Ok tt else Raise AttributeError
-                   | _ => Ok tt
-                   end = Ok tt).
-      { destruct item; try reflexivity. cbn [refs] in Hfast. rewrite (Hfast cls (or_introl eq_refl)). reflexivity. }
+        intros x d Hx Hd. apply (IH sc sc0 x d Hs Hsc Hsc0 Hx Hd). }
       destruct item as [[f| | |id b]| | |c| | |]; cbn [bind]; try (rewrite Hg; exact H).
-      + destruct b; [cbn [safe_tf leaf_ok] in Hs; apply andb_true_iff in Hs as [_ Hs]; discriminate|rewrite Hg; exact H].
-      + rewrite Hc. cbn [bind]. rewrite Hg. exact H.
+      destruct b; [cbn [safe_tf leaf_ok] in Hs; apply andb_true_iff in Hs as [_ Hs]; discriminate|rewrite Hg; exact H].
     - destruct v; try discriminate.
       destruct (mapM (ser_val re_match sser oser sc sc0 item) l) as [r|ex] eqn:Hm; cbn [bind] in H; [|discriminate].
-      assert (Hg : mapM (fast_val sser ofast e fc item) l = Ok r).
-      { apply (mapM_ok_impl (ser_val re_match sser oser sc sc0 item) (fast_val sser ofast e fc item) (ord_val oi item) l r);
+      assert (Hg : mapM (fast_val sser ofast fc item) l = Ok r).
+      { apply (mapM_ok_impl (ser_val re_match sser oser sc sc0 item) (fast_val sser ofast fc item) (ord_val oi item) l r);
           [|exact Hord|exact Hm].
-        intros x d Hx Hd. apply (IH sc sc0 x d Hs Hsc Hsc0 Hfast Hx Hd). }
-      assert (Hc : match item with
-                   | TRef c => if class_is_fast e c then Ok tt else Raise AttributeError
-                   | _ => Ok tt
-                   end = Ok tt).
-      { destruct item; try reflexivity. cbn [refs] in Hfast. rewrite (Hfast cls (or_introl eq_refl)). reflexivity. }
-      rewrite Hc. cbn [bind]. rewrite Hg. exact H.
+        intros x d Hx Hd. apply (IH sc sc0 x d Hs Hsc Hsc0 Hx Hd). }
+      rewrite Hg. exact H.
     - apply (Hsc c v w (or_introl eq_refl) Hord H).
     - destruct (ser_val re_match sser oser sc0 sc0 f v) as [d|ex] eqn:Hf.
-      + inversion H. subst. apply (IH sc0 sc0 v w Hs Hsc0 Hsc0 Hfast Hord Hf).
+      + inversion H. subst. apply (IH sc0 sc0 v w Hs Hsc0 Hsc0 Hord Hf).
       + destruct ex; discriminate.
   Qed.
 
@@ -313,27 +306,42 @@ Section Proofs.
     repeat (apply andb_true_iff in H as [H _]). exact H.
   Qed.
 
-  (* C: for a safe class and an instance in declaration order, whatever the regular serializer returns the
-     order-free fast serializer (default flags everywhere) returns too *)
-  Theorem fast_equals_regular : forall n cn v d,
-      safe_class e n cn = true -> ord_inst e n cn v ->
-      ser_regular re_match sser oser e n [] cn v = Ok d ->
-      sfast sser ofast e (fun _ => dconf) n cn v = Ok d.
+  Lemma safe_class_fast n cn : safe_class e n cn = true -> exists c, find_tclass e cn = Some c /\ t_fast c = true.
   Proof.
-    induction n as [|n IH]; intros cn v d Hsafe Hord Hreg; [discriminate|].
+    destruct n; cbn [safe_class]; [discriminate|]. destruct (find_tclass e cn) as [c|]; [|discriminate].
+    intro H. exists c. split; [reflexivity|]. repeat (apply andb_true_iff in H as [H _]). exact H.
+  Qed.
+
+  (* serialize_val serializes an instance of another class of the family as what it is *)
+  Lemma ser_regular_own n c0 rn a :
+    find_tclass e rn <> None ->
+    ser_regular re_match sser oser e n [] c0 (PStruct rn a) = ser_regular re_match sser oser e n [] rn (PStruct rn a).
+  Proof.
+    intro Hf. destruct n; [reflexivity|]. cbn [ser_regular]. rewrite pystr_eqb_refl.
+    destruct (pystr_eqb rn c0) eqn:E.
+    - apply pystr_eqb_spec in E. subst. reflexivity.
+    - destruct (find_tclass e rn) eqn:E2; [rewrite E2; reflexivity|contradiction Hf; reflexivity].
+  Qed.
+
+  (* C: for a safe class and an instance in declaration order - whose fields may hold instances of subclasses of
+     the declared classes -, whatever the regular serializer returns the order-free fast serializer (default flags
+     everywhere) returns too *)
+  Theorem fast_equals_regular : forall n cn a d,
+      safe_class e n cn = true -> ord_inst e n cn (PStruct cn a) ->
+      ser_regular re_match sser oser e n [] cn (PStruct cn a) = Ok d ->
+      sfast sser ofast e (fun _ => dconf) n cn (PStruct cn a) = Ok d.
+  Proof.
+    induction n as [|n IH]; intros cn a d Hsafe Hord Hreg; [discriminate|].
     cbn [safe_class] in Hsafe. cbn [ord_inst] in Hord. cbn [ser_regular] in Hreg. cbn [sfast].
     destruct (find_tclass e cn) as [c|] eqn:Hc; [|discriminate].
-    destruct v as [| | | | | | | | | |rn a| ]; try contradiction. destruct Hord as [Hrn Hal]. subst rn.
+    destruct Hord as [_ Hal].
     rewrite pystr_eqb_refl in Hreg. rewrite Hc in Hreg.
     apply andb_true_iff in Hsafe as [Hsafe Hfields]. apply andb_true_iff in Hsafe as [Hsafe Hnd].
     apply andb_true_iff in Hsafe as [Hfastc Hms]. rewrite Hms in Hreg. cbn [bind] in Hreg.
     rewrite forallb_forall in Hfields.
     destruct (ser_attrs _ [] c a) as [r|ex] eqn:Hattrs; cbn [bind] in Hreg; [|discriminate].
     inversion Hreg. subst d. clear Hreg.
-    set (FCn := fun c' x => match find_tclass e c' with
-                            | Some cd => if t_fast cd then sfast sser ofast e (fun _ => dconf) n c' x else Raise TypeError
-                            | None => Raise Unmodelled
-                            end).
+    set (FCn := fun (_ : pystr) x => by_class e (sfast sser ofast e (fun _ => dconf) n) x).
     set (inh' := special (t_mapper c) ++ []) in *.
     (* the callbacks of the regular path never return None *)
     assert (Hsc_nn : forall inh c' x w, ser_regular re_match sser oser e n inh c' x = Ok w -> is_none w = false).
@@ -346,13 +354,13 @@ Section Proofs.
     assert (Halign : aligned (fun tf x => forall w,
                                   ser_val re_match sser oser (ser_regular re_match sser oser e n inh')
                                           (ser_regular re_match sser oser e n []) tf x = Ok w ->
-                                  fast_val sser ofast e FCn tf x = Ok w /\ is_none w = false) (t_fields c) a).
+                                  fast_val sser ofast FCn tf x = Ok w /\ is_none w = false) (t_fields c) a).
     { assert (Hgen : forall fs, (forall fd, In fd fs -> In fd (t_fields c)) ->
                                 forall a', aligned (ord_val (ord_inst e n)) fs a' ->
                                 aligned (fun tf x => forall w,
                                   ser_val re_match sser oser (ser_regular re_match sser oser e n inh')
                                           (ser_regular re_match sser oser e n []) tf x = Ok w ->
-                                  fast_val sser ofast e FCn tf x = Ok w /\ is_none w = false) fs a').
+                                  fast_val sser ofast FCn tf x = Ok w /\ is_none w = false) fs a').
       { intros fs Hsub a' Hal'. induction Hal' as [fs|fd fs a' Hal' IHa|fd fs x a' Hn Hov Hal' IHa].
         - constructor.
         - apply al_skip. apply IHa. intros fd' Hin. apply Hsub. right. exact Hin.
@@ -373,14 +381,21 @@ Section Proofs.
                 destruct (t_mapper c); cbn [is_special] in Hspec; try discriminate; reflexivity. }
               subst inh. unfold FCn.
               rewrite forallb_forall in Hrefs. pose proof (Hrefs c0 Hin) as Hs0.
-              pose proof (forallb_safe_fast n (refs (f_ty fd)) c0 (proj2 (forallb_forall _ _) Hrefs) Hin) as Hf0.
-              unfold class_is_fast in Hf0. destruct (find_tclass e c0) as [cd0|]; [|discriminate]. rewrite Hf0.
-              apply (IH c0 x0 d0 Hs0 Ho Hr). }
+              (* the instance held by the field: of the declared class c0, or of another safe class *)
+              destruct n as [|n']; [contradiction|]. cbn [ord_inst] in Ho.
+              destruct x0 as [| | | | | | | | | |rn0 a0| ]; try contradiction.
+              destruct (find_tclass e rn0) as [c1|] eqn:Hf1; [|contradiction].
+              destruct Ho as [Hcls Hal0].
+              assert (Hs1 : safe_class e (S n') rn0 = true) by (destruct Hcls as [->|Hcls]; assumption).
+              destruct (safe_class_fast _ _ Hs1) as [c1' [Hf1' Ht1]]. rewrite Hf1 in Hf1'. inversion Hf1'. subst c1'.
+              unfold by_class. rewrite Hf1, Ht1.
+              rewrite (ser_regular_own (S n') c0 rn0 a0) in Hr by (rewrite Hf1; discriminate).
+              apply (IH rn0 a0 d0 Hs1); [|exact Hr].
+              cbn [ord_inst]. rewrite Hf1. split; [left; reflexivity|exact Hal0]. }
             apply (ser_fast_val FCn (ord_inst e n) (f_ty fd) (ser_regular re_match sser oser e n inh')
                                  (ser_regular re_match sser oser e n []) x w Hstf).
             * intros c0 x0 d0. apply (Hcb inh'). right. reflexivity.
             * intros c0 x0 d0. apply (Hcb []). left. reflexivity.
-            * intros c0 Hin. apply (forallb_safe_fast n (refs (f_ty fd)) c0 Hrefs Hin).
             * exact Hov.
             * exact Hw.
           + apply (ser_val_not_none (f_ty fd) (ser_regular re_match sser oser e n inh')
@@ -395,7 +410,7 @@ Section Proofs.
       split; [destruct (f_default fd); [discriminate|reflexivity]|].
       destruct (f_ty fd) as [[f| | |id b]| | | | | |]; try exact I. destruct b; [|exact I].
       cbn [safe_tf leaf_ok] in Hstf. apply andb_true_iff in Hstf as [_ Hstf]. discriminate. }
-    destruct (ser_fast_fields _ (fast_val sser ofast e FCn) c (t_fields c) a a r Halign Hnd Hfs
+    destruct (ser_fast_fields _ (fast_val sser ofast FCn) c (t_fields c) a a r Halign Hnd Hfs
                               (fun fd _ => eq_refl) Hattrs) as [r' [Er Dr]].
     assert (Hml : match t_mapper c with MapList => False | _ => True end)
       by (destruct (t_mapper c); try exact I; discriminate).
